@@ -1,15 +1,14 @@
 //! Conformance harness for helgoboss-midi: drives the real code, records, compares only by
 //! `==` against values TLC produced.  All verdicts are TLC's.
 mod alloc;
+mod basics;
 mod chunks;
 mod ints;
 #[cfg(feature = "std")]
 mod edges;
 #[cfg(feature = "std")]
 mod exec;
-#[cfg(feature = "std")]
 mod pure;
-#[cfg(feature = "std")]
 mod pure2;
 #[cfg(feature = "with_serde")]
 mod natural;
@@ -32,7 +31,6 @@ fn main() {
         "exec" => exec::run(&args[2], &args[3]),
         #[cfg(feature = "std")]
         "edges" => edges::run(&args[2..]),
-        #[cfg(feature = "std")]
         "table" => pure::run(&args[2..]),
         "ints" => ints::run(&args[2..]),
         #[cfg(feature = "with_serde")]
